@@ -2,8 +2,12 @@
 package c09
 
 import (
+	"io"
+	"net/http"
+
 	"encoding/json"
 	"fmt"
+	"github.com/nyaruka/gocommon/httpx"
 	"os"
 	"path/filepath"
 	"strings"
@@ -22,12 +26,33 @@ import (
 
 type J = world.J
 
+// staticHTTP answers every request with 200 and the JSON document named by the URL's body parameter
+// (default {"ok": true}). It has no state, so concurrent sessions can share it.
+type staticHTTP struct{}
+
+func (staticHTTP) Do(client *http.Client, request *http.Request) (*http.Response, error) {
+	body := request.URL.Query().Get("body")
+	if body == "" {
+		body = `{"ok": true}`
+	}
+	return &http.Response{
+		Request: request, Status: "200 OK", StatusCode: 200, Proto: "HTTP/1.0", ProtoMajor: 1, ProtoMinor: 0,
+		Header:        http.Header{"Content-Type": []string{"application/json"}},
+		Body:          io.NopCloser(strings.NewReader(body)),
+		ContentLength: int64(len(body)),
+	}, nil
+}
+
+func init() { httpx.SetRequestor(staticHTTP{}) }
+
 // flow indices of the shared world
 const (
 	fParent = 0 // enters the child, then sends a message
 	fChild  = 1 // router whose tests return the shared FalseResult, then a msg wait
 	fOld    = 2 // a 13.0 definition (migrated on first use)
 	fLegacy = 3 // a legacy definition (migrated on first use)
+	fBcast  = 4 // broadcast and session start whose fixed recipient lists have spare capacity, plus per-contact recipients
+	fHook   = 5 // a webhook answering the bare JSON document true, a wait, then templates reading @webhook
 )
 
 var legacyUUID, oldUUID string
@@ -62,6 +87,27 @@ func assetsDoc(repo string) (J, error) {
 		}
 		flowsList = append(flowsList, fl)
 	}
+	// recipients: fixed lists of three (a decoded list of three has room for a fourth) and variables that
+	// evaluate, per contact, to a contact UUID and a URN
+	u := func(s string) string { return world.UUID("c09." + s) }
+	refs := []any{J{"uuid": u("r1"), "name": "R1"}, J{"uuid": u("r2"), "name": "R2"}, J{"uuid": u("r3"), "name": "R3"}}
+	fixedURNs := []any{"tel:+12065550001", "tel:+12065550002", "tel:+12065550003"}
+	bcast := J{"uuid": world.FlowUUID(fBcast), "name": "Broadcast", "spec_version": "13.5.0", "language": "eng", "type": "messaging", "nodes": []any{
+		J{"uuid": world.NodeUUID(fBcast, 0), "actions": []any{
+			J{"uuid": u("a.bc"), "type": "send_broadcast", "text": "hello", "contacts": refs, "urns": fixedURNs, "legacy_vars": []any{"@contact.uuid", "@urns.tel"}},
+			J{"uuid": u("a.ss"), "type": "start_session", "flow": J{"uuid": world.FlowUUID(fChild), "name": "Child"}, "contacts": refs, "urns": fixedURNs, "legacy_vars": []any{"@contact.uuid", "@urns.tel"}},
+		}, "exits": []any{J{"uuid": world.ExitUUID(fBcast, 0, 0)}}},
+	}}
+	hook := J{"uuid": world.FlowUUID(fHook), "name": "Hook", "spec_version": "13.5.0", "language": "eng", "type": "messaging", "nodes": []any{
+		J{"uuid": world.NodeUUID(fHook, 0), "actions": []any{
+			J{"uuid": u("a.wh"), "type": "call_webhook", "method": "GET", "url": "http://example.com/flag?body=true", "result_name": "flag"},
+		}, "exits": []any{J{"uuid": world.ExitUUID(fHook, 0, 0), "destination_uuid": world.NodeUUID(fHook, 1)}}},
+		world.Render(fHook, world.FlowSpec{Nodes: []world.Node{{Kind: "N", Dests: []int{1}}, {Kind: "W", Dests: []int{2, 2}}, {Kind: "N", Dests: []int{-1}}}}, 0)["nodes"].([]any)[1],
+		J{"uuid": world.NodeUUID(fHook, 2), "actions": []any{
+			J{"uuid": u("a.use"), "type": "send_msg", "text": "@webhook.json | @webhook | @(json(webhook)) | @results.flag.extra"},
+		}, "exits": []any{J{"uuid": world.ExitUUID(fHook, 2, 0)}}},
+	}}
+	flowsList = append(flowsList, bcast, hook)
 	a["flows"] = flowsList
 	// two districts of the same name under different states: a lookup by name and parent filters a
 	// shared list of candidates
@@ -102,9 +148,17 @@ var Scripts = map[string][]Op{
 	"old":     {"start:2", "inspect:2"},
 	"legacy":  {"inspect:3", "start:3"},
 	"inspect": {"inspect:0", "find:child", "chlang:1", "inspect:1"},
+	"bcastA":  {"start:4:A", "dump"},
+	"bcastB":  {"start:4:B", "dump"},
+	"hook":    {"start:5", "restore", "resume", "eval"},
 }
 
-var ScriptNames = []string{"family", "child", "old", "legacy", "inspect"}
+var ScriptNames = []string{"family", "child", "old", "legacy", "inspect", "bcastA", "bcastB", "hook"}
+
+// CoreScripts are combined with each other in every way; the others only in ExtraPairs (quick tier)
+// and with everything in the thorough tier.
+var CoreScripts = []string{"family", "child", "old", "legacy", "inspect"}
+var ExtraPairs = [][]string{{"bcastA", "bcastB"}, {"hook", "child"}, {"hook", "hook"}}
 
 // hookedSource wraps the static source; Yield is called inside FlowByUUID, which the flow cache
 // calls while holding its lock - a scheduling point inside the critical section.
@@ -142,6 +196,7 @@ type Thread struct {
 	Ops     []Op
 	Out     strings.Builder
 	session flows.Session
+	held    []flows.Event
 }
 
 // Step executes the thread's i-th operation against the shared assets.
@@ -155,13 +210,24 @@ func (t *Thread) Step(i int, sa flows.SessionAssets, eng flows.Engine) {
 	switch op {
 	case "start":
 		var fi int
+		who := ""
+		if j := strings.Index(arg, ":"); j >= 0 {
+			arg, who = arg[:j], arg[j+1:]
+		}
 		fmt.Sscanf(arg, "%d", &fi)
 		fl, err := sa.Flows().Get(flowUUID(fi))
 		if err != nil {
 			w("start %s: load error %v", arg, err)
 			return
 		}
-		cj, _ := json.Marshal(world.DefaultContact())
+		cdoc := world.DefaultContact()
+		if who != "" {
+			// a contact of the thread's own: what is resolved per contact differs between threads
+			cdoc["uuid"] = world.UUID("c09.contact." + who)
+			cdoc["name"] = "Contact " + who
+			cdoc["urns"] = []any{map[string]string{"A": "tel:+12065557001", "B": "tel:+12065557002"}[who]}
+		}
+		cj, _ := json.Marshal(cdoc)
 		contact, err := flows.ReadContact(sa, cj, assets.IgnoreMissing)
 		if err != nil {
 			w("contact error %v", err)
@@ -176,8 +242,13 @@ func (t *Thread) Step(i int, sa flows.SessionAssets, eng flows.Engine) {
 			return
 		}
 		t.session = s
+		t.held = sp.Events()
 		eb, _ := json.Marshal(sp.Events())
 		w("start %s: status=%s events=%s", arg, s.Status(), eb)
+	case "dump":
+		// events the engine handed back earlier are serialized again later: they must not have changed
+		eb, _ := json.Marshal(t.held)
+		w("dump: %s", eb)
 	case "resume":
 		if t.session == nil || t.session.Status() != flows.SessionStatusWaiting {
 			w("resume: not waiting")
@@ -228,7 +299,7 @@ func (t *Thread) Step(i int, sa flows.SessionAssets, eng flows.Engine) {
 			w("eval: no context")
 			return
 		}
-		for _, tpl := range []string{`@(has_district("Gasabo", "Eastern Province").match)`, `@(has_district("Gasabo", "Kigali City").match)`, `@(has_ward("Rukara", "Gasabo", "Eastern Province").match)`, `@(has_state("Kigali City").match)`, `@(has_text(""))`, `@(has_text("").match)`, `@(json(object()))`, `@(if(has_number("x"), 1, 2))`, `@contact.name @results @(json(run))`, `@(count(array()))`} {
+		for _, tpl := range []string{`@(has_district("Gasabo", "Eastern Province").match)`, `@(has_district("Gasabo", "Kigali City").match)`, `@(has_ward("Rukara", "Gasabo", "Eastern Province").match)`, `@(has_state("Kigali City").match)`, `@(has_text(""))`, `@(has_text("").match)`, `@(json(object()))`, `@(if(has_number("x"), 1, 2))`, `@contact.name @results @(json(run))`, `@(count(array()))`, `@(parse_json("true"))`, `@(parse_json("[true, false]")[1])`, `@(json(parse_json("{\"a\": true}").a))`} {
 			v, _, err := eng.Evaluator().Template(t.session.MergedEnvironment(), ctx, tpl, nil)
 			w("eval %s -> %s %v", tpl, v, err)
 		}
